@@ -389,7 +389,7 @@ func (m *Machine) sendCoins(from, to *Term, c *CoinsV, mayBlock bool, userSender
 	var errT *Term
 	if userSender {
 		// a user account may hold locked (vesting) coins: spendable(a) says it does not
-		E.D.Fun("spendable", []Sort{SBytes}, SBool)
+		E.declSpendable()
 		errT = Ite(And(ok, App(SBool, "spendable", from)), IntLit(0), IntLit(993))
 	} else {
 		errT = Ite(ok, IntLit(0), IntLit(999))
@@ -464,4 +464,11 @@ func registerKeeperModels() {
 		m.SetG("burned", Ite(ok, Store(led, acct, row), led))
 		return Ite(ok, IntLit(0), IntLit(998))
 	}
+}
+
+// declSpendable: spendable(a) = the account holds no locked (vesting) coins; module accounts never do.
+func (E *Engine) declSpendable() {
+	E.D.Fun("spendable", []Sort{SBytes}, SBool)
+	E.D.Fun("modaddr", []Sort{SStr}, SBytes)
+	E.D.Axiom("(forall ((n Str)) (! (spendable (modaddr n)) :pattern ((modaddr n))))")
 }
